@@ -20,6 +20,10 @@ Definition unchanged_but (d : nat) (h h' : heap) : Prop :=
   (forall l nd, l <> d -> get h l = Some nd -> get h' l = Some nd) /\
   (forall m, get h d = Some (NStore m) -> exists m', get h' d = Some (NStore m')).
 
+(* every container that is not a store's private table is unchanged *)
+Definition unchanged_ns (h h' : heap) : Prop :=
+  forall l nd, get h l = Some nd -> is_store nd = false -> get h' l = Some nd.
+
 Definition values_kept (h h' : heap) : Prop :=
   forall n v t, value n h v = Some t -> value n h' v = Some t.
 
